@@ -293,11 +293,13 @@ pub(super) fn snapshot(vm: &VmGreenThread) -> String {
     root(&vm.string_operand1);
     root(&vm.string_operand2);
     let mut heap = vec![];
+    let mut sizes = vec![];
     let mut marked = vec![];
     let mut edges = vec![];
     for &h in vm.heap_list.iter() {
         let id = obj_id(h as usize);
         heap.push(id);
+        sizes.push(unsafe { (*h).nbytes() } as u64);
         if unsafe { (*h).visited } == vm.gc_visited {
             marked.push(id);
         }
@@ -309,9 +311,11 @@ pub(super) fn snapshot(vm: &VmGreenThread) -> String {
     }
     let gray: Vec<u64> = vm.gray_stack.iter().map(|&h| obj_id(h as usize)).collect();
     format!(
-        r#"{{"roots":{},"heap":{},"marked":{},"gray":{},"edges":[{}]}}"#,
+        r#"{{"roots":{},"heap":{},"sizes":{},"heap_size":{},"marked":{},"gray":{},"edges":[{}]}}"#,
         ids_json(&roots),
         ids_json(&heap),
+        ids_json(&sizes),
+        vm.heap_size,
         ids_json(&marked),
         ids_json(&gray),
         edges.join(",")
